@@ -87,7 +87,7 @@ func (g *c01gen) dml() string {
 	g.uniq++
 	tail := ""
 	cols := "(id, n, s)"
-	if t == "tv" || strings.HasPrefix(t, "c") {
+	if t == "tv" || t == "tw" || strings.HasPrefix(t, "c") {
 		cols = "(id, n)"
 	}
 	three := cols == "(id, n, s)"
@@ -145,6 +145,11 @@ func genC01(seed uint64) (*Scenario, *c01Meta) {
 		// before the first dump, so that dump 0 is a commit point for it as well
 		g.lines = append(g.lines, "DECLARE tv VIEW (id, n);", "INSERT INTO tv VALUES (1, 10), (2, 20);", "COMMIT;")
 		g.cur["tv"], g.com["tv"] = true, true
+		if r.Bool(0.5) {
+			// a second temporary table of the same block: ROLLBACK restores every one of them
+			g.lines = append(g.lines[:len(g.lines)-1], "DECLARE tw VIEW (id, n);", "INSERT INTO tw VALUES (1, 5), (7, 70);", "COMMIT;")
+			g.cur["tw"], g.com["tw"] = true, true
+		}
 		g.dump("commit", 0)
 	} else {
 		g.dump("init", 0)
@@ -259,7 +264,7 @@ func genC01(seed uint64) (*Scenario, *c01Meta) {
 	m.Lines, m.Dumps = g.lines, g.dumps
 	if m.Ending == "normal" || m.Ending == "cancel" {
 		for _, t := range g.names(g.cur) {
-			if t != "tv" {
+			if t != "tv" && t != "tw" {
 				m.FileTabs = append(m.FileTabs, t)
 			}
 		}
@@ -425,7 +430,7 @@ func (c01) Eval(t *testing.T, c *Case, dec func(int) *Decider) *Outcome {
 		for _, tb := range d.Tables {
 			if dumps[d.Idx][tb] != dumps[d.Ref][tb] {
 				kind := "file-table"
-				if tb == "tv" {
+				if tb == "tv" || tb == "tw" {
 					kind = "temporary-table"
 				}
 				o.viol(prop, "rollback-restores", "rollback-differs:"+kind,
@@ -510,7 +515,7 @@ func (c01) Eval(t *testing.T, c *Case, dec func(int) *Decider) *Outcome {
 	if lastDump >= 0 && len(o.Violations) == 0 {
 		var tabs []string
 		for tb := range dumps[lastDump] {
-			if tb != "tv" {
+			if tb != "tv" && tb != "tw" {
 				tabs = append(tabs, tb)
 			}
 		}
